@@ -174,9 +174,9 @@ CopyOwn == [uid |-> AnyId, gid |-> AnyId]
 \* co = [dm |-> mode or 0 (keep source mode), fm |-> mode or 0, follow |-> BOOLEAN]
 CopyMode(n, opt, type) == IF opt = 0 THEN n.mode ELSE type + Perm(opt)
 \* D12: in a copy into the source's own subtree a source file that lies inside the region being written (IsPrefix(t, x)) may
-\* already have been overwritten by this very copy when its turn comes: its copy holds the old or the new bytes (AnyData)
+\* already have been overwritten by this very copy when its turn comes: its copy holds the old or the new bytes and mode (wildcards)
 CopyOne(fs, own, snap, x, s, t, co) == LET q == Rebase(x, s, t) n0 == snap[x]
-                                           n == IF n0.k = "file" /\ IsPrefix(t, x) THEN [n0 EXCEPT !.d = AnyData] ELSE n0 IN
+                                           n == IF n0.k = "file" /\ IsPrefix(t, x) THEN [n0 EXCEPT !.d = AnyData, !.mode = 0] ELSE n0 IN      \* bytes and mode: old or new
    IF n.k = "dir" THEN (IF Exists(fs, q) THEN (IF IsDir(fs, q) THEN [fs |-> fs, e |-> "-"] ELSE [fs |-> fs, e |-> "*"])
                         ELSE [fs |-> Put(fs, q, [NDir(own) EXCEPT !.mode = CopyMode(n, co.dm, DirType)]), e |-> "-"])
    ELSE IF n.k = "file" THEN (IF Exists(fs, q) /\ ~IsFile(fs, q) THEN [fs |-> fs, e |-> "*"]
